@@ -253,6 +253,11 @@ def level1(leafset=None, reduced=None):
                 out.append(("cond", c, a, b))
     # receivers at the edge of the representable range, in method form (accessors with a zone that
     # pushes the local date out of years 1..9999; conversions written as methods)
+    # lists whose elements make a predicate fail twice in a row before a deciding element
+    for recv in (("lit", "list", "[0, 0, 1]"), ("lit", "list", "[0, 0, 2]"), ("lit", "list", "[0, 1, 0]")):
+        for m in MACROS:
+            for pr in PREDICATES + ["1 / v == 1"]:
+                out.append(("macro", recv, m, "v", pr))
     for recv in EXTREME_RECEIVERS:
         for f in ACCESSORS:
             for z in ('"+01:00"', '"-00:01"', '"Europe/Paris"', '"+14:00"', '"-14:00"'):
